@@ -3,14 +3,14 @@
 #include "hdrmap.hpp"
 
 std::string Recipe::key() const {
-  return fmt("ch=%d rate=%ld q=%.4f mode=%d nom=%ld n=%lld sig=%d seed=%llu nc=%d bs64=%d cut=%d mute=%d trim=%d tk=%d m3=%d", ch, rate, q, mode, nominal, (long long)n, sig, (unsigned long long)seed, ncomm, bs64, cut, mute, trim, tk, modes3);
+  return fmt("ch=%d rate=%ld q=%.4f mode=%d nom=%ld n=%lld sig=%d seed=%llu nc=%d bs64=%d cut=%d mute=%d trim=%d tk=%d m3=%d cr=%d", ch, rate, q, mode, nominal, (long long)n, sig, (unsigned long long)seed, ncomm, bs64, cut, mute, trim, tk, modes3, craft);
 }
 void Recipe::to(Rec &r) const {
-  r.set("ch", ch).set("rate", rate).setf("q", q).set("mode", mode).set("nom", nominal).set("n", n).set("sig", sig).setu("seed", seed).set("nc", ncomm).set("bs64", bs64); if (cut) r.set("cut", cut); if (mute) r.set("mute", mute); if (trim) r.set("trim", trim).set("tk", tk); if (modes3) r.set("modes3", modes3);
+  r.set("ch", ch).set("rate", rate).setf("q", q).set("mode", mode).set("nom", nominal).set("n", n).set("sig", sig).setu("seed", seed).set("nc", ncomm).set("bs64", bs64); if (cut) r.set("cut", cut); if (mute) r.set("mute", mute); if (trim) r.set("trim", trim).set("tk", tk); if (modes3) r.set("modes3", modes3); if (craft) r.set("craft", craft);
 }
 Recipe Recipe::from(const Rec &r) {
   Recipe x; x.ch = (int)r.i("ch", 2); x.rate = r.i("rate", 44100); x.q = r.f("q", 0.4); x.mode = (int)r.i("mode", 0); x.nominal = r.i("nom", 0);
-  x.n = r.i("n", 20000); x.sig = (int)r.i("sig", 0); x.seed = r.u("seed", 1); x.ncomm = (int)r.i("nc", 2); x.bs64 = (int)r.i("bs64", 0); x.cut = (int)r.i("cut", 0); x.mute = (int)r.i("mute", 0); x.trim = (int)r.i("trim", 0); x.tk = (int)r.i("tk", 3); x.modes3 = (int)r.i("modes3", 0);
+  x.n = r.i("n", 20000); x.sig = (int)r.i("sig", 0); x.seed = r.u("seed", 1); x.ncomm = (int)r.i("nc", 2); x.bs64 = (int)r.i("bs64", 0); x.cut = (int)r.i("cut", 0); x.mute = (int)r.i("mute", 0); x.trim = (int)r.i("trim", 0); x.tk = (int)r.i("tk", 3); x.modes3 = (int)r.i("modes3", 0); x.craft = (int)r.i("craft", 0);
   return x;
 }
 
@@ -175,7 +175,7 @@ std::shared_ptr<Link> get_link(const Recipe &r) {
   if (it != g_cache.end()) return it->second;
   bool was = g_sim.alloc_active; g_sim.alloc_active = false;   // corpus production is outside the ledger window
   auto l = std::make_shared<Link>(); l->r = r;
-  encode_link(*l);
+  if (r.craft) craft_link(*l); else encode_link(*l);
   if (l->ok) {
     l->ref_err = decode_packets(l->hdr, l->audio, 0, l->pcm, &l->chunk);
     l->len = l->pcm.empty() ? 0 : (int64_t)l->pcm[0].size();
@@ -185,6 +185,7 @@ std::shared_ptr<Link> get_link(const Recipe &r) {
     l->vendor = vc.vendor ? vc.vendor : ""; for (int i = 0; i < vc.comments; i++) l->comments.emplace_back(vc.user_comments[i], vc.comment_lengths[i]);
     vorbis_comment_clear(&vc); vorbis_info_clear(&vi);
   }
+  { static const bool trace = getenv("VERIF_TRACE_CRAFT") != nullptr; if (trace && r.craft) fprintf(stderr, "CRAFT seed=%llu ch=%d ok=%d ref_err=%d len=%lld packets=%zu bs=%ld/%ld setup_bytes=%zu\n", (unsigned long long)r.seed, r.ch, (int)l->ok, l->ref_err, (long long)l->len, l->audio.size(), l->bs0, l->bs1, l->hdr.size() > 2 ? l->hdr[2].data.size() : 0); }
   g_sim.alloc_active = was;
   // bound the per-worker footprint (16 workers under ASan share the machine): drop the cache when it holds too many bytes
   static size_t cache_bytes = 0;
